@@ -17,11 +17,13 @@ Verdict(t) ==
     IF t.alone.err # "" \/ ~t.alone.result.ok THEN "ok"            \* the reference itself cannot be observed: outside the property
     ELSE IF t.here.err # "" THEN "NoNewError"
     ELSE IF t.check_name /\ t.here.name # t.alone.name THEN "SameName"
+    ELSE IF t.check_plan /\ t.here.plan # t.alone.plan THEN "SamePlan"
     ELSE IF t.here.schema # t.alone.schema THEN "SameSchema"
     ELSE IF t.here.np # t.alone.np THEN "SameNPartitions"
     ELSE IF t.here.div_known # t.alone.div_known \/ t.here.div # t.alone.div THEN "SameDivisions"
     ELSE LET v == Accept(t.alone.result, t.here.result, t.ord, t.idx) IN
          IF v # "ok" THEN v
+         ELSE IF t.spine_here # t.spine_alone THEN "SameKeyOrder"      \* sorted output: the sequence of sort keys (ties are free)
          ELSE IF t.check_lens /\ t.here.lens # t.alone.lens THEN "SamePartitionLengths"
          ELSE "ok"
 
